@@ -3,7 +3,7 @@ CONSTANTS
   MODE = "reduce"
   K = 2
   NF = 3
-  NG = 0
+  NG = 1
   PF = "p2one"
   TF = "tp2one"
   PG = "p2s"
